@@ -225,6 +225,30 @@ def c16_writers(opts=None):
     return {"violates": bool(bad), "detail": bad}
 
 
+def c16_writer_options(mode="line-verbose", extra=None, want=None):
+    from urllib.parse import parse_qsl, urlparse
+
+    from flow.record.tools import rdump
+
+    seen = []
+    orig = rdump.RecordWriter
+
+    def spy(uri, *a, **k):
+        seen.append(uri)
+        return orig(uri, *a, **k)
+
+    with tempfile.TemporaryDirectory() as td:
+        paths, intact = _make_sources(td, ["A"])
+        rdump.RecordWriter = spy
+        try:
+            _run(["-m", mode] + list(extra or []) + paths)
+        finally:
+            rdump.RecordWriter = orig
+    got = [dict(parse_qsl(urlparse(u).query)) for u in seen]
+    ok = len(got) == 1 and all(got[0].get(k) == v for k, v in (want or {}).items())
+    return {"violates": not ok, "detail": None if ok else f"-m {mode} {extra}: the writer is opened with the options {got}, the command line asks for {want}"}
+
+
 def c16_split(count=1, suffix_length=1, n=12):
     from flow.record import RecordReader
 
@@ -295,4 +319,4 @@ def c16_sweep(seed=0, n=60):
     return {"violates": False, "cases": cases}
 
 
-CALLS = {"c16_split": c16_split, "c16_pipeline": c16_pipeline, "c16_isolate": c16_isolate, "c16_writers": c16_writers, "c16_sweep": c16_sweep}
+CALLS = {"c16_writer_options": c16_writer_options, "c16_split": c16_split, "c16_pipeline": c16_pipeline, "c16_isolate": c16_isolate, "c16_writers": c16_writers, "c16_sweep": c16_sweep}
